@@ -31,6 +31,11 @@ CLAIMED = {
              "available_channels) must agree with a reference automaton over the documented mode.", ref="§6 C13",
              note="Trusted base: z3, symx, the reference automaton in checks/c13.py (answers accept/refuse/unspecified; only the first two are asserted). "
              "Findings F11, F12 are reported as KNOWN-FINDING."),
+ "C15": dict(text="Bounded symbolic model checking of EOM mode: RydbergEOM.calculate_detuning_off/detuning_off_options against the documented "
+             "light-shift formula with symbolic set-points (exact reals + exact square roots), EOM blocks/buffers on the inductive L1 scheduler step, "
+             "Sequence-level programs (square pulses at the set-point, idle at the off-detuning, stored chosen off-detuning) and the phase-drift "
+             "bookkeeping of correct_phase_drift with symbolic idle durations.", ref="§6 C15",
+             note="Trusted base: z3 (QF_NRA for K1), symx, stubs in the evidence file; EOM configuration numbers concrete; emulator equivalence outside the claim."),
  "C02": dict(text="Bounded symbolic model checking of the real _Schedule operations: one operation from an arbitrary state "
              "satisfying the representation invariant (inductive step), all times/durations/fall times/limits as solver variables; "
              "exhaustive over paths and values inside the stated slot-count/clock bounds.", ref="§6 C02, §5 L1"),
